@@ -57,10 +57,12 @@ func runToolFull(dir string, stdin []byte, env []string, stdout *bytes.Buffer, n
 		return "", err
 	}
 	go func() { done <- cmd.Wait() }()
+	expired, stop := afterTicks(4 * caseTimeout) // always after the case limit itself (20 s in the parallel pass)
+	defer stop()
 	select {
 	case err := <-done:
 		return se.String(), err
-	case <-time.After(20 * time.Second):
+	case <-expired:
 		cmd.Process.Kill()
 		return se.String(), fmt.Errorf("timeout")
 	}
